@@ -14,7 +14,7 @@ REGEN = {'csvprofile': _regen_csvprofile}
 def _extra(ctx, spec):
     """the edge stream (quotes, separators, `|`, line breaks, description scales, arbitrary float bits): run on the
     implementation only; its divergences are counted into the evidence, not asserted — except that nothing may panic"""
-    import framework as F
+    import framework as F, os
     ops, impl, stats = F.run_family(ctx, 'csvedge')
     cats = {}
     for a in impl:
@@ -23,6 +23,16 @@ def _extra(ctx, spec):
     ctx.cov.setdefault('extra', {})['csvedge'] = dict(ops=len(ops), outcomes=cats)
     ctx.cov['extra_evaluations'] = ctx.cov.get('extra_evaluations', 0) + len(ops)
     ctx.log(f'edge stream: {len(ops)} ops, outcomes {cats}')
+    # how many generated inputs of the checked stream are inside `csvUnambiguousB`, and which conjunct the others fail
+    try:
+        cops = [l.split('\t', 1)[0] for l in open(os.path.join(ctx.work, 'csv.impl.tsv')) if l.startswith('csv ')]
+        why = {}
+        for a in F.run_driver(cops, mode='--spec'):
+            why[a] = why.get(a, 0) + 1
+        ctx.cov['extra']['scope'] = why
+        ctx.log(f'scope of the {len(cops)} csv inputs: {why}')
+    except Exception as e:
+        ctx.log('scope count failed', e)
 
 
 PROP = dict(
@@ -31,7 +41,7 @@ PROP = dict(
     theorems=['Fit.C19.C19_columns', 'Fit.C19.C19_columns_trim', 'Fit.C19.C19_tables', 'Fit.C19.C19_field_roundtrip_raw', 'Fit.C19.C19_raw_roundtrip_partial', 'Fit.C19.C19_scaled_roundtrip', 'Fit.C19.C19_sequences_partial',
               'Fit.C19.C19_scalar_roundtrip_raw', 'Fit.C19.C19_scaled_roundtrip_profile', 'Fit.C19.C19_array_roundtrip', 'Fit.C19.C19_field_roundtrip_value',
               'Fit.C19.C19_unknown_field_roundtrip', 'Fit.C19.C19_dev_field_roundtrip', 'Fit.C19.C19_dev_float_scale_fixed', 'Fit.C19.C19_subfield_roundtrip', 'Fit.C19.C19_removes_expansion_targets',
-              'Fit.C19.C19_roundtrip_partial'],
+              'Fit.C19.C19_roundtrip_partial', 'Fit.C19.C19_roundtrip', 'Fit.C19.C19_sequences'],
     families=[dict(name='csv', prop=True)],
     extra=_extra,
     trusted_base=STD_TRUST + [
